@@ -119,19 +119,19 @@ func verifCanary(label string, cond bool) {}
 
 //@ pred dvOK(d *ua.DataValue) := d != nil && ua.variantShape(d.Value)
 //@ pred readOK(r *ua.ReadResponse) := r != nil &&
-//@      (forall i int :: { r.Results[i] } 0 <= i && i < len(r.Results) ==> dvOK(r.Results[i]))
+//@      (forall i int :: { at(r.Results, i) } off(r.Results) <= i && i < off(r.Results) + len(r.Results) ==> dvOK(at(r.Results, i)))
 //@ pred refOK(r *ua.ReferenceDescription) := r != nil && r.NodeID != nil && r.NodeID.NodeID != nil
 //@ pred brOK(b *ua.BrowseResult) := b != nil &&
-//@      (forall j int :: { b.References[j] } 0 <= j && j < len(b.References) ==> refOK(b.References[j]))
+//@      (forall j int :: { at(b.References, j) } off(b.References) <= j && j < off(b.References) + len(b.References) ==> refOK(at(b.References, j)))
 //@ pred browseOK(r *ua.BrowseResponse) := r != nil &&
-//@      (forall i int :: { r.Results[i] } 0 <= i && i < len(r.Results) ==> brOK(r.Results[i]))
+//@      (forall i int :: { at(r.Results, i) } off(r.Results) <= i && i < off(r.Results) + len(r.Results) ==> brOK(at(r.Results, i)))
 //@ pred browseNextOK(r *ua.BrowseNextResponse) := r != nil &&
-//@      (forall i int :: { r.Results[i] } 0 <= i && i < len(r.Results) ==> brOK(r.Results[i]))
+//@      (forall i int :: { at(r.Results, i) } off(r.Results) <= i && i < off(r.Results) + len(r.Results) ==> brOK(at(r.Results, i)))
 //@ pred bptOK(t *ua.BrowsePathTarget) := t != nil && t.TargetID != nil && t.TargetID.NodeID != nil
 //@ pred bprOK(p *ua.BrowsePathResult) := p != nil &&
-//@      (forall j int :: { p.Targets[j] } 0 <= j && j < len(p.Targets) ==> bptOK(p.Targets[j]))
+//@      (forall j int :: { at(p.Targets, j) } off(p.Targets) <= j && j < off(p.Targets) + len(p.Targets) ==> bptOK(at(p.Targets, j)))
 //@ pred tbpOK(r *ua.TranslateBrowsePathsToNodeIDsResponse) := r != nil &&
-//@      (forall i int :: { r.Results[i] } 0 <= i && i < len(r.Results) ==> bprOK(r.Results[i]))
+//@      (forall i int :: { at(r.Results, i) } off(r.Results) <= i && i < off(r.Results) + len(r.Results) ==> bprOK(at(r.Results, i)))
 
 //@ pred respOK(v ua.Response) := v != nil &&
 //@      (typeis(v, *ua.ReadResponse) ==> readOK(dyn(v, *ua.ReadResponse))) &&
@@ -149,24 +149,25 @@ func verifCanary(label string, cond bool) {}
 //@   ensures result == nil ==> typeis(t, T) && *dyn(ptrT, *T) == dyn(t, T)
 //@   ensures result != nil ==> !typeis(t, T) && *dyn(ptrT, *T) == old(*dyn(ptrT, *T))
 
-// The client as seen by Node (an interface): assumed. Nothing of a Node is written by the client.
+// The client as seen by Node (an interface): assumed. Nothing of a Node is written by the client, and
+// responses handed out earlier are not written again (that is property C20).
 //@ func ClientInterface.Read
 //@   props C21
 //@   assumed
 //@   params c ctx req
-//@   assigns allbut Node
+//@   assigns allbut Node ua.ReadResponse ua.DataValue ua.Variant ua.BrowseResponse ua.BrowseNextResponse ua.BrowseResult ua.ReferenceDescription ua.ExpandedNodeID ua.TranslateBrowsePathsToNodeIDsResponse ua.BrowsePathResult ua.BrowsePathTarget []*ua.DataValue []*ua.BrowseResult []*ua.ReferenceDescription []*ua.BrowsePathResult []*ua.BrowsePathTarget
 //@   ensures err == nil ==> readOK(result0)
 //@ func ClientInterface.Browse
 //@   props C21
 //@   assumed
 //@   params c ctx req
-//@   assigns allbut Node
+//@   assigns allbut Node ua.ReadResponse ua.DataValue ua.Variant ua.BrowseResponse ua.BrowseNextResponse ua.BrowseResult ua.ReferenceDescription ua.ExpandedNodeID ua.TranslateBrowsePathsToNodeIDsResponse ua.BrowsePathResult ua.BrowsePathTarget []*ua.DataValue []*ua.BrowseResult []*ua.ReferenceDescription []*ua.BrowsePathResult []*ua.BrowsePathTarget
 //@   ensures err == nil ==> browseOK(result0)
 //@ func ClientInterface.BrowseNext
 //@   props C21
 //@   assumed
 //@   params c ctx req
-//@   assigns allbut Node
+//@   assigns allbut Node ua.ReadResponse ua.DataValue ua.Variant ua.BrowseResponse ua.BrowseNextResponse ua.BrowseResult ua.ReferenceDescription ua.ExpandedNodeID ua.TranslateBrowsePathsToNodeIDsResponse ua.BrowsePathResult ua.BrowsePathTarget []*ua.DataValue []*ua.BrowseResult []*ua.ReferenceDescription []*ua.BrowsePathResult []*ua.BrowsePathTarget
 //@   ensures err == nil ==> browseNextOK(result0)
 //@ func ClientInterface.NodeFromExpandedNodeID
 //@   props C21
@@ -178,7 +179,7 @@ func verifCanary(label string, cond bool) {}
 //@   props C21
 //@   assumed
 //@   params c ctx req h
-//@   assigns allbut Node
+//@   assigns allbut Node ua.ReadResponse ua.DataValue ua.Variant ua.BrowseResponse ua.BrowseNextResponse ua.BrowseResult ua.ReferenceDescription ua.ExpandedNodeID ua.TranslateBrowsePathsToNodeIDsResponse ua.BrowsePathResult ua.BrowsePathTarget []*ua.DataValue []*ua.BrowseResult []*ua.ReferenceDescription []*ua.BrowsePathResult []*ua.BrowsePathTarget
 //@   calls h nonnil
 //@   callarg h 0 respOK(cbarg)
 //@   ensures h != nil && err == nil ==> ran_h && res_h == nil
@@ -186,54 +187,60 @@ func verifCanary(label string, cond bool) {}
 //@ func (*Node).Attribute
 //@   props C21
 //@   requires n != nil && n.c != nil
-//@   assigns *
+//@   assigns allbut Node
 //@   ensures [C21:value-or-error] err == nil ==> ua.variantShape(result0)
 
 //@ func (*Node).NodeClass
 //@   props C21
 //@   requires n != nil && n.c != nil
-//@   assigns *
+//@   assigns allbut Node
 //@ func (*Node).BrowseName
 //@   props C21
 //@   requires n != nil && n.c != nil
-//@   assigns *
+//@   assigns allbut Node
 //@ func (*Node).Description
 //@   props C21
 //@   requires n != nil && n.c != nil
-//@   assigns *
+//@   assigns allbut Node
 //@ func (*Node).DisplayName
 //@   props C21
 //@   requires n != nil && n.c != nil
-//@   assigns *
+//@   assigns allbut Node
 //@ func (*Node).AccessLevel
 //@   props C21
 //@   requires n != nil && n.c != nil
-//@   assigns *
+//@   assigns allbut Node
 //@ func (*Node).UserAccessLevel
 //@   props C21
 //@   requires n != nil && n.c != nil
-//@   assigns *
+//@   assigns allbut Node
 //@ func (*Node).Attributes
 //@   props C21
 //@   requires n != nil && n.c != nil
-//@   assigns *
+//@   assigns allbut Node
 //@   loop 0 invariant n != nil && n.c != nil && req != nil
 //@ func (*Node).ReferencedNodes
 //@   props C21
 //@   requires n != nil && n.c != nil
-//@   assigns *
+//@   assigns allbut Node
+//@   loop 0 invariant n != nil && n.c != nil
+//@   loop 0 invariant forall j int :: { at(res, j) } off(res) <= j && j < off(res) + len(res) ==> refOK(at(res, j))
 //@ func (*Node).References
 //@   props C21
 //@   requires n != nil && n.c != nil
-//@   assigns *
-//@   ensures [C21:refs] err == nil ==> forall j int :: { result0[j] } 0 <= j && j < len(result0) ==> refOK(result0[j])
+//@   assigns allbut Node
+//@   ensures [C21:refs] err == nil ==> forall j int :: { at(result0, j) } off(result0) <= j && j < off(result0) + len(result0) ==> refOK(at(result0, j))
 //@ func (*Node).browseNext
 //@   props C21
+//@   bytes
 //@   requires n != nil && n.c != nil
-//@   requires forall i int :: { results[i] } 0 <= i && i < len(results) ==> brOK(results[i])
-//@   assigns *
-//@   ensures [C21:refs] err == nil ==> forall j int :: { result0[j] } 0 <= j && j < len(result0) ==> refOK(result0[j])
+//@   requires forall i int :: { at(results, i) } off(results) <= i && i < off(results) + len(results) ==> brOK(at(results, i))
+//@   assigns allbut Node
+//@   ensures [C21:refs] err == nil ==> forall j int :: { at(result0, j) } off(result0) <= j && j < off(result0) + len(result0) ==> refOK(at(result0, j))
+//@   loop 0 invariant n != nil && n.c != nil && len(results) > 0
+//@   loop 0 invariant brOK(results[0])
+//@   loop 0 invariant forall j int :: { at(refs, j) } off(refs) <= j && j < off(refs) + len(refs) ==> refOK(at(refs, j))
 //@ func (*Node).TranslateBrowsePathsToNodeIDs
 //@   props C21
 //@   requires n != nil && n.c != nil
-//@   assigns *
+//@   assigns allbut Node
